@@ -779,7 +779,13 @@ func (self *Fork) cleanChunkTemp(partial *PartialVdrKillReport) *PartialVdrKillR
 	files := make([]string, 0, len(self.chunks))
 	var start time.Time
 	for _, chunk := range self.chunks {
-		if tempPaths, err := chunk.metadata.enumerateTemp(); err != nil {
+		tempPaths, err := chunk.metadata.enumerateTemp()
+		if os.IsNotExist(err) {
+			// A chunk may have removed its own temporary directory.  The
+			// ones of the other chunks still want cleaning.
+			tempPaths, err = nil, nil
+		}
+		if err != nil {
 			return partial
 		} else if filesPaths, err := chunk.metadata.enumerateFiles(); err != nil {
 			return partial
